@@ -105,6 +105,14 @@ CHECKS.update({
             "DESIGN.md section 5 C07"),
 })
 
+CHECKS.update({
+    "C05": ("other",
+            "real create_ast_from_phase and real lower_node on enumerated hand-built phases; storage order symbolic (rank-sorted by forking), guard flags symbolic; per leaf a z3 validity query (tree path condition <=> declared guard), order inversions allowed only if z3 proves mutual exclusion",
+            "Bounded symbolic checking: for each enumerated phase (kinds x guards x loop nests x acyclic edges, N<=3 bounded-exhaustive, N=4..5 seeded random) and every storage order, the lowered tree contains exactly the non-Nop statements once, inside exactly their declared loops, under a path condition z3 proves equivalent to the declared guard for all flag valuations, in an order consistent with the transitive dependencies under every valuation; the tree is the same for all storage orders; the generic walker's callbacks are the in-order traversal.",
+            "Trusted: z3, the independent flattener/serialiser in vf/checks/c05.py. Flags are not assigned inside the phase.",
+            "DESIGN.md section 5 C05"),
+})
+
 NOT_APPLICABLE = {
 }
 
